@@ -164,9 +164,21 @@ impl Property for C15 {
                 Shape::Dots(_) => Shape::Plain,
                 s => s,
             };
-            let g = match t.below(3) {
+            let g = match t.below(4) {
                 0 => vec![Tok::Tree { lead: false, trail: false }],
                 1 => vec![Tok::Tree { lead: false, trail: true }, Tok::Zom { lazy: false }],
+                3 => {
+                    // a pruning glob: a selective first component, then anything — so that links
+                    // (leaves when read as files) and directories are discarded as trees
+                    let names = tree_names(&tree);
+                    let mut e = match t.below(3) {
+                        0 => vec![Tok::Zom { lazy: false }, Tok::lit(&t.pick(&names).chars().last().map(String::from).unwrap_or_default())],
+                        1 => vec![Tok::Alt(vec![vec![Tok::lit(&t.pick(&names))], vec![Tok::lit(&t.pick(&names))]])],
+                        _ => vec![Tok::One, Tok::Zom { lazy: false }],
+                    };
+                    e.push(Tok::Tree { lead: true, trail: false });
+                    normalize(&e, true)
+                },
                 _ => gen_expr(t, &fs_glob_cfg(&tree)),
             };
             Some((shape, g))
